@@ -46,6 +46,26 @@ def spec_deps(module):
     return [os.path.join(SPEC, m + '.tla') for m in sorted(seen)]
 
 
+def spec_tag(module):
+    """short hash of the specification files a module depends on (part of cache file names, so that entries of an
+    older specification can be recognised and removed)"""
+    return _sha(*spec_deps(module))[:8]
+
+
+def prune(prefix, tag):
+    """remove cache entries `<prefix>_<othertag>_*` left behind by an older version of the specification"""
+    if not os.path.isdir(CACHE):
+        return
+    pat = re.compile(r'^%s_([0-9a-f]{8})_[0-9a-f]+\.\w+$' % re.escape(prefix))
+    for f in os.listdir(CACHE):
+        m = pat.match(f)
+        if m and m.group(1) != tag:
+            try:
+                os.remove(os.path.join(CACHE, f))
+            except OSError:
+                pass
+
+
 def parse_stats(text):
     st = {}
     m = re.search(r'(\d+) states generated, (\d+) distinct states found, (\d+) states left', text)
@@ -132,11 +152,13 @@ class Graph(object):
 def dump_graph(module, cfg_text, workers=16, timeout=3600, use_cache=True, raw=False):
     key = _sha(cfg_text, module + str(raw), *spec_deps(module))
     os.makedirs(CACHE, exist_ok=True)
-    cp = os.path.join(CACHE, 'graph_%s_%s.pkl' % (module, key))
+    tag = spec_tag(module)
+    cp = os.path.join(CACHE, 'graph_%s_%s_%s.pkl' % (module, tag, key))
     if use_cache and os.path.exists(cp):
         with open(cp, 'rb') as fh:
             return pickle.load(fh)
-    out = os.path.join(CACHE, 'graph_%s_%s.txt' % (module, key))
+    prune('graph_%s' % module, tag)
+    out = os.path.join(CACHE, 'graph_%s_%s_%s.txt' % (module, tag, key))
     cfg = cfg_text + '\nACTION_CONSTRAINT EmitEdge\nINVARIANT DumpState\n'
     st, _ = run(module, cfg, workers=workers, timeout=timeout, outfile=out)
     if not st.get('completed'):
